@@ -134,8 +134,12 @@ package transport
 //@   ensures #implementation-closed implClosed
 
 //@ ghost implOpened bool
+//@ ghost implOpenErr any local
 //@ func (*Transport).Open
-//@   noverify
+//@   abstract
+//@   at call! Open#1 assert [C16 C14] #the-implementation-is-opened-with-the-transports-own-arguments recv == t.Impl && arg0 == t.Args
+//@   after call Open#1 set implOpenErr = result
+//@   at return assert [C16 C06] #the-implementations-error-is-returned-unchanged result == implOpenErr
 //@   modifies implOpened
 //@   ensures implOpened <==> (result == nil)
 
